@@ -466,9 +466,12 @@ func (s *Session) Serve(h Handler) (err error) {
 	}()
 
 	for {
+		s.stateMutex.RLock()
+		ctx := s.in.ctx
+		s.stateMutex.RUnlock()
 		select {
-		case <-s.in.ctx.Done():
-			return s.in.ctx.Err()
+		case <-ctx.Done():
+			return ctx.Err()
 		default:
 		}
 		err := handleInputStream(s, h)
@@ -894,8 +897,10 @@ func (s *Session) RemoteAddr() jid.JID {
 // as closed and any blocking calls to Serve will return an error.
 // This is normally called just before a call to Close.
 func (s *Session) SetCloseDeadline(t time.Time) error {
+	s.stateMutex.Lock()
 	oldCancel := s.in.cancel
 	s.in.ctx, s.in.cancel = context.WithDeadline(context.Background(), t)
+	s.stateMutex.Unlock()
 	if oldCancel != nil {
 		oldCancel()
 	}
